@@ -9,6 +9,7 @@ import (
 	"regexp"
 	"runtime/debug"
 	"runtime/pprof"
+	"slices"
 	"strings"
 	"sync"
 
@@ -909,7 +910,7 @@ func (s *scope) interpretSlice(obj pyObject, sl *Slice) pyObject {
 	switch t := obj.(type) {
 	case pyList:
 		end := s.interpretSliceExpression(obj, sl.End, newPyInt(len(t)))
-		return t[start:end]
+		return slices.Clone(t[start:end]) // a slice is a new list, not a view of the old one
 	case pyString:
 		end := s.interpretSliceExpression(obj, sl.End, newPyInt(len(t)))
 		return t[start:end]
